@@ -52,6 +52,13 @@ RULE = ("random modifier chains (depth 0..4: dagger / controlled(1..3) / integer
         "whose FIRST modifier is dealt round-robin over dagger / power -n / exp / controlled / power 1/q / power n / replace, one "
         "from a pattern list or random -- the model answers when every value lies in Q(zeta8), else the case is oracle-only; plus a "
         "malformed stream (control counts <= 0, wrong parameter arity, negative powers of singular matrices). "
+        "DEFECTIVE = custom gates with exact small (Gaussian-)rational NON-UNITARY matrices, 2x2 and 4x4: rank one (idempotent or "
+        "scaled), nilpotent (index 2..4, permuted strictly triangular), Jordan type lam + nilpotent (invertible, not diagonalisable), "
+        "singular non-normal, singular block / Kronecker products with a singular factor, shears (invertible, non-normal), diagonal "
+        "singular -- every pattern of a route table once per run: negative integer powers (directly, "
+        "under / over controlled, dagger, exp, other powers; the exponent in int / float / Fraction / sympy / numpy types: every family), "
+        "power 0, roots 1/q, dagger / controlled, exp (two of these groups per family and run; nilpotent / non-diagonalisable singular "
+        "matrices always on a root route, nilpotent / Jordan-type always on an exp route); read fwd or rev, optionally twice / with decoys. "
         "NUMBER TYPES = every numeric argument of the modifier API is drawn from a type ladder (exponents: int / float / "
         "fractions.Fraction / sympy.Integer / sympy.Rational / sympy.Float / numpy int64, int32, int16, int8, uint8, each at "
         "negative, zero, positive whole values incl. whole-valued Fraction(3, 1) / Float(2.0), and Fraction / Rational / Float / "
@@ -104,6 +111,17 @@ ASSUMPTIONS = [
     "a NonInvertibleMatrixError / IndexError raised inside sympy's Matrix.exp() or non-integer ** although the argument matrix was "
     "computed is a failure of the external routine (jordan_form; e.g. a repeated eigenvalue written as (-1)**(3/4) and I**(3/2)): "
     "counted, not judged",
+    "a custom gate's matrix may be ANY square matrix of dimension 2^n (CustomGateDefinition does not ask for unitarity): the sentences "
+    "for dagger / controlled / non-negative integer powers / exp / roots are judged on singular, nilpotent, defective and non-normal "
+    "matrices like on unitaries.  'Inverse for negative exponents' is judged as: IF a (finite) matrix M is handed out for exponent -k it "
+    "satisfies M * A^k = 1; where A^k has no inverse, raising is the admissible behaviour (the unchanged library raises sympy's "
+    "NonInvertibleMatrixError on every route probed) and any finite matrix is a failure (|M A^k - 1| >= 1 - |M| sigma_min(A^k)); "
+    "dagger / controlled / non-zero integer powers OF such a refused gate have no matrix either (power 0, roots, exp of it: not judged)",
+    "NOT generated (genuine defect of the unchanged library, reported): a negative power whose argument is a DIAGONAL singular matrix "
+    "(diag(a, 0) ** -1, (N ** 2) ** -1 for nilpotent N): sympy's diagonal shortcut answers entrywise, 0 ** -1 = zoo, and Power.matrix "
+    "hands out a matrix with infinite entries instead of raising; the oracle does not judge non-finite matrices",
+    "a root 1/q of a nilpotent (more generally: singular and not diagonalisable) matrix need not exist; the unchanged library raises "
+    "NonInvertibleMatrixError there: counted as external failure, not judged; a matrix that IS returned is judged by the root law",
     "the matrix of a BASE gate is not judged by the oracle (that is C02 / C06); a wrong base matrix is visible to the model "
     "comparison only",
 ]
@@ -920,6 +938,18 @@ def _sentence(t, mod, i, prev, cur, A, B, which):
             else:
                 P = np.linalg.matrix_power(A, -n)
                 eye = np.eye(A.shape[0])
+                # "inverse for negative exponents": a matrix M that IS returned must satisfy M * A^k = 1.  Where the k-fold product
+                # P has no inverse nothing can be returned: for every M, |M P - 1|_2 >= 1 - |M|_2 * sigma_min(P) (take the unit
+                # vector that P maps to length sigma_min), so a finite answer with |M|_2 * sigma_min(P) < 1e-3 is off by >= 0.999
+                # whatever it is.  Raising is the only admissible behaviour there (and what the unchanged library does).
+                if np.all(np.isfinite(P)) and np.all(np.isfinite(B)):
+                    sv = np.linalg.svd(P, compute_uv=False)
+                    if sv[-1] <= 1e-9 * max(1.0, sv[0]) and np.linalg.norm(B, 2) * sv[-1] < 1e-3:
+                        R = B @ P
+                        return ("power-negative-singular",
+                                f"step {i}: power({n}) returned a {which} {np.round(B, 6).tolist()} although the {-n}-fold product of the "
+                                f"original matrix {np.round(A, 6).tolist()} has no inverse (smallest singular value {sv[-1]:.1e}); "
+                                f"(returned) x (original^{-n}) = {np.round(R, 6).tolist()}, not the identity")
                 # judged only where the float product is meaningful (the -n fold product is well conditioned)
                 if np.all(np.isfinite(P)) and np.linalg.cond(P) < 1e6 and np.linalg.cond(A) < 1e6 \
                         and not (_close(B @ P, eye, 1e-7) and _close(P @ B, eye, 1e-7)):
@@ -976,11 +1006,30 @@ def _oracle_run(case, out):
         if _is_mat(steps[0].get("m2")) and not _close(_np(steps[0]["m"]), _np(steps[0]["m2"])):
             return ("matrix-unstable", "the base gate's matrix, asked for twice (the first answer was edited in place by the "
                                        "caller in between), differs: there is no 'original matrix' for the modifiers to refer to")
+    undefined = None  # index of the step whose gate has NO matrix: a negative power of a matrix without inverse
     for i, mod in enumerate(case["chain"]):
         if i + 1 >= len(steps):
             return ("steps-missing", "implementation output has fewer steps than modifiers")
         prev, cur = steps[i], steps[i + 1]
         t = mod[0]
+        if undefined is not None:
+            # the original gate of this modifier has no matrix (rightly refused, see below).  "followed by the original matrix" /
+            # "the conjugate transpose" / "the repeated product" of something that does not exist is nothing: a finite matrix
+            # handed out for dagger / controlled / a non-zero integer power of it cannot be what the sentence describes.
+            # (power 0, roots, exp, replace_params: not judged, tracking ends.)
+            keep = t in ("dagger", "controlled") or (t == "power" and unrat(mod[1]).denominator == 1 and unrat(mod[1]) != 0)
+            if keep and t == "controlled" and mod[1] < 1:
+                keep = False
+            if not keep:
+                undefined = None
+            else:
+                for wb in ("m", "m2"):
+                    Bw = cur.get(wb) if isinstance(cur, dict) else None
+                    if _is_mat(Bw) and np.all(np.isfinite(_np(Bw))):
+                        return ("matrix-of-undefined",
+                                f"step {i} {mod}: a matrix {np.round(_np(Bw), 6).tolist()} was returned for {_show(cur.get('struct'))}, but the "
+                                f"gate it modifies ({_show(prev.get('struct'))}) has no matrix: step {undefined} {case['chain'][undefined]} is a "
+                                f"negative power of a matrix without inverse")
         if "struct" not in cur:  # the modifier call itself raised
             if t == "controlled" and mod[1] >= 1:
                 return ("controlled-raise", f"controlled({mod[1]}) raised {cur}")
@@ -1032,6 +1081,10 @@ def _oracle_run(case, out):
             if _is_mat(A) and isinstance(B, dict) and B.get("err") == "err:noninv":
                 if abs(np.linalg.det(_np(A))) > 1e-6:
                     return ("matrix-raise", f"step {i} {mod}: NonInvertibleMatrixError on an invertible matrix")
+                if t == "power" and unrat(mod[1]).denominator == 1 and unrat(mod[1]) < 0 and np.all(np.isfinite(_np(A))):
+                    sv = np.linalg.svd(_np(A), compute_uv=False)
+                    if sv[-1] <= 1e-12 * max(1.0, sv[0]):
+                        undefined = i  # rightly refused: the gates built on top of this one have no matrix either
             continue  # timeouts / failures inside sympy's routines are counted, not judged
         # the sentence must hold for every reading of the two matrices (m2 = asked again after the caller edited the first answer)
         for wa, Aw in (("m", A), ("m2", prev.get("m2"))):
@@ -2395,6 +2448,266 @@ def _syntax_const_base(rng):
     return None
 
 
+# ------------------------------------------------------------------ custom gates whose matrix is NOT unitary: singular, nilpotent,
+# defective (not diagonalisable), non-normal.  The property's sentences are statements about matrices, not about unitaries: the
+# conjugate transpose, the block structure, the repeated product, the matrix exponential (a finite series for a nilpotent matrix)
+# and the root law are defined for every square matrix; the inverse power is defined exactly for the invertible ones, and where
+# it is not defined no matrix may be handed out (raising is what the unchanged library does, established by probing every family
+# below on every route).  Entries are exact small (Gaussian) rationals, so the model answers every case that has no external.
+DEFECTIVE_FAMILIES_1 = ["rank-one", "nilpotent", "jordan", "singular-nonnormal", "shear", "diag-singular"]
+DEFECTIVE_FAMILIES_2 = ["rank-one", "nilpotent", "jordan", "singular-block", "kron-singular", "shear"]
+NO_INVERSE = ("rank-one", "nilpotent", "singular-nonnormal", "diag-singular", "singular-block", "kron-singular")
+# tokens: "-n" negative integer power, "n" integer power >= 2, "0", "1/q", "q" (the power q after a root 1/q), "d" dagger,
+# "c" controlled, "e" exp.  Every route on which an exponent / the matrix of such a gate can reach Power.matrix, Dagger.matrix,
+# ControlledGate.matrix, Exponential.matrix or one of the re-association rules.
+DEFECTIVE_PATTERNS = {
+    "neg": [["-n"], ["c", "-n"], ["-n", "c"], ["-n", "d"], ["d", "-n"], ["e", "-n"], ["n", "-n"], ["-n", "-n"], ["0", "-n"],
+            ["c", "d", "-n"], ["-n", "n"], ["c", "-n", "d"], ["-n", "e"], ["-n", "c", "d"], ["d", "c", "-n"], ["-n", "d", "c"]],
+    "zero": [["0"], ["c", "0"], ["0", "d"], ["d", "0", "c"], ["e", "0"], ["0", "c"]],
+    # (the dagger OF a root is the F16 neighbourhood -- known finding, exercised by its own stream -- and is left out here)
+    "root": [["1/q"], ["1/q", "q"], ["c", "1/q"], ["d", "1/q"], ["1/q", "c"], ["n", "1/q"], ["1/q", "n"]],
+    "adj": [["d"], ["c", "d"], ["d", "c"], ["n", "d"], ["d", "n", "c"], ["c", "c", "d"], ["n", "c"], ["d", "d"]],
+    "exp": [["e"], ["d", "e"], ["e", "d"], ["c", "e"], ["e", "c"], ["n", "e"], ["e", "n"], ["e", "d", "c"]],
+}
+
+
+def _small(rng, nonzero=False, gauss=False):
+    """a small exact (Gaussian) rational [re, im]"""
+    while True:
+        re_ = Fraction(rng.randrange(-3, 4), rng.choice([1, 1, 1, 2]))
+        im_ = Fraction(rng.randrange(-2, 3), rng.choice([1, 2])) if gauss and rng.random() < 0.5 else Fraction(0)
+        if not nonzero or re_ != 0 or im_ != 0:
+            return complex_frac(re_, im_)
+
+
+def complex_frac(re_, im_=0):
+    return (Fraction(re_), Fraction(im_))
+
+
+def _cf_mul(a, b):
+    return (a[0] * b[0] - a[1] * b[1], a[0] * b[1] + a[1] * b[0])
+
+
+def _cf_add(a, b):
+    return (a[0] + b[0], a[1] + b[1])
+
+
+def _cf_div(a, b):
+    n = b[0] * b[0] + b[1] * b[1]
+    return ((a[0] * b[0] + a[1] * b[1]) / n, (a[1] * b[0] - a[0] * b[1]) / n)
+
+
+def _cf_rows(M):
+    return [[[rat(e[0]), rat(e[1])] for e in row] for row in M]
+
+
+def _cf_matmul(A, B):
+    n = len(A)
+    out = [[complex_frac(0) for _ in range(n)] for _ in range(n)]
+    for i in range(n):
+        for j in range(n):
+            acc = complex_frac(0)
+            for k in range(n):
+                acc = _cf_add(acc, _cf_mul(A[i][k], B[k][j]))
+            out[i][j] = acc
+    return out
+
+
+def _cf_kron(A, B):
+    n, m = len(A), len(B)
+    return [[_cf_mul(A[i // m][j // m], B[i % m][j % m]) for j in range(n * m)] for i in range(n * m)]
+
+
+def _cf_permute(rng, M):
+    """P M P^T for a random permutation: similar matrix (same rank, Jordan structure), no longer triangular / block shaped"""
+    n = len(M)
+    perm = list(range(n))
+    rng.shuffle(perm)
+    return [[M[perm[i]][perm[j]] for j in range(n)] for i in range(n)]
+
+
+def _cf_offdiag(M):
+    return any(M[i][j] != (0, 0) for i in range(len(M)) for j in range(len(M)) if i != j)
+
+
+def _rank_one(rng, d, nilpotent):
+    """u v^T scaled: an idempotent (v.u = 1 after scaling) or, with v.u = 0, a nilpotent of index 2; never diagonal"""
+    while True:
+        gauss = rng.random() < 0.3
+        u = [_small(rng, gauss=gauss) for _ in range(d)]
+        v = [_small(rng, gauss=gauss) for _ in range(d)]
+        if nilpotent:  # make v orthogonal (bilinear) to u: v_last := -(sum of the others) / u_last
+            if u[-1] == (0, 0):
+                continue
+            acc = complex_frac(0)
+            for a, b in zip(u[:-1], v[:-1]):
+                acc = _cf_add(acc, _cf_mul(a, b))
+            v[-1] = _cf_div((-acc[0], -acc[1]), u[-1])
+        dot = complex_frac(0)
+        for a, b in zip(u, v):
+            dot = _cf_add(dot, _cf_mul(a, b))
+        if (dot == (0, 0)) != nilpotent:
+            continue
+        scale = complex_frac(1) if nilpotent or rng.random() < 0.3 else dot  # unscaled: u v^T = dot * idempotent, still singular
+        M = [[_cf_div(_cf_mul(u[i], v[j]), scale) for j in range(d)] for i in range(d)]
+        if _cf_offdiag(M) and max(abs(e[0]) + abs(e[1]) for row in M for e in row) <= 12 \
+                and max(max(e[0].denominator, e[1].denominator) for row in M for e in row) <= 12:
+            return M
+
+
+def _strict_upper(rng, d):
+    while True:
+        M = [[(_small(rng) if j > i and (j == i + 1 or rng.random() < 0.4) else complex_frac(0)) for j in range(d)] for i in range(d)]
+        if any(M[i][i + 1] != (0, 0) for i in range(d - 1)):
+            return M
+
+
+def _eye_cf(d, lam=(Fraction(1), Fraction(0))):
+    return [[lam if i == j else complex_frac(0) for j in range(d)] for i in range(d)]
+
+
+def _madd(A, B):
+    return [[_cf_add(a, b) for a, b in zip(ra, rb)] for ra, rb in zip(A, B)]
+
+
+def _defective_matrix(rng, family, k):
+    d = 2 ** k
+    lam = rng.choice([complex_frac(1), complex_frac(2), complex_frac(-1), complex_frac(Fraction(1, 2)), complex_frac(0, 1), complex_frac(-2)])
+    if family == "rank-one":
+        return _rank_one(rng, d, False)
+    if family == "nilpotent":
+        return _rank_one(rng, d, True) if (d == 2 and rng.random() < 0.5) else _cf_permute(rng, _strict_upper(rng, d))
+    if family == "jordan":     # lam + nilpotent: invertible, not diagonalisable
+        N = _rank_one(rng, d, True) if rng.random() < 0.4 else _cf_permute(rng, _strict_upper(rng, d))
+        return _madd(_eye_cf(d, lam), N)
+    if family == "singular-nonnormal":
+        a, b = _small(rng, True), _small(rng, True)
+        z = complex_frac(0)
+        return rng.choice([[[a, b], [z, z]], [[z, z], [a, b]], [[a, z], [b, z]], [[z, a], [z, b]]])
+    if family == "shear":      # invertible, not normal, not unitary
+        while True:
+            M = [[(_small(rng, True, gauss=(rng.random() < 0.2)) if j >= i else complex_frac(0)) for j in range(d)] for i in range(d)]
+            if rng.random() < 0.5:
+                M = [list(r) for r in zip(*M)]
+            return _cf_permute(rng, M) if d == 4 else M
+    if family == "diag-singular":
+        a = _small(rng, True)
+        return rng.choice([[[a, complex_frac(0)], [complex_frac(0), complex_frac(0)]], [[complex_frac(0), complex_frac(0)], [complex_frac(0), a]]])
+    if family == "singular-block":  # 1 (+) [[a, a], [a, a]] (+) 1 and relatives, permuted
+        a = _small(rng, True)
+        M = _eye_cf(4)
+        M[1][1] = M[1][2] = M[2][1] = M[2][2] = a
+        if rng.random() < 0.5:
+            M[3][3] = complex_frac(0)
+            M[0][3] = _small(rng, True)
+        return _cf_permute(rng, M)
+    if family == "kron-singular":
+        S = _defective_matrix(rng, rng.choice(["rank-one", "nilpotent", "singular-nonnormal"]), 1)
+        T = _defective_matrix(rng, rng.choice(["shear", "jordan"]), 1)
+        return _cf_kron(S, T) if rng.random() < 0.5 else _cf_kron(T, S)
+    raise ValueError(family)
+
+
+def _defective_chain(rng, pattern, k, family):
+    nq, chain, q = k, [], None
+    for tok in pattern:
+        if tok == "-n":
+            chain.append(["power", rng.choice([-1, -1, -2, -3]), rng.choice(["i", "i", "i", "f", "sI", "sF", "F", "n64", "n8"])])
+        elif tok == "n":
+            chain.append(["power", rng.choice([2, 2, 3]), rng.choice(["i", "i", "f", "sI", "nu8"])])
+        elif tok == "0":
+            chain.append(["power", 0, rng.choice(["i", "i", "f", "sI", "F"])])
+        elif tok == "1/q":
+            q = rng.choice([2, 2, 3, 4])
+            chain.append(["power", f"1/{q}", rng.choice(["f", "sR", "F"])])
+        elif tok == "q":
+            chain.append(["power", q])
+        elif tok == "d":
+            chain.append(["dagger"])
+        elif tok == "e":
+            chain.append(["exp"])
+        elif tok == "c":
+            n = rng.randrange(1, 3) if nq + 2 <= 4 and not any(t in ("e", "1/q") for t in pattern) else 1
+            chain.append(["controlled", n] + ([rng.choice(["b", "n64", "sI"])] if n == 1 and rng.random() < 0.3 else []))
+            nq += n
+    return chain
+
+
+def _defective_ok(pattern, family, k):
+    """routes not generated: (1) a negative power whose ARGUMENT is a diagonal singular matrix -- sympy answers entrywise there
+    (0 ** -1 = zoo) and the unchanged library hands out a matrix with infinite entries instead of raising: a genuine defect of
+    /repo, reported, excluded; that is family diag-singular and the positive power of a nilpotent matrix (N ** n = 0);
+    (2) externals on more than 2 qubits (size discipline of the whole check)"""
+    neg = "-n" in pattern
+    if neg and family == "diag-singular":
+        return False
+    if neg and "n" in pattern and pattern.index("n") < pattern.index("-n") and family in ("nilpotent", "kron-singular"):
+        return False
+    nq = k
+    for tok in pattern:
+        if tok == "c":
+            nq += 1
+        if tok in ("e", "1/q") and nq > 2:
+            return False
+    return nq <= 4
+
+
+def _defective_cases(rng, tier, n_extra):
+    cases = []
+    fams = [(f, 1) for f in DEFECTIVE_FAMILIES_1] + [(f, 2) for f in DEFECTIVE_FAMILIES_2]
+    rng.shuffle(fams)
+
+    def make(fam, k, group, pattern):
+        _counter[0] += 1
+        base = {"custom": f"nu{_counter[0]}", "rows": _cf_rows(_defective_matrix(rng, fam, k)), "nsyms": 0, "params": []}
+        c = {"kind": "defective", "family": fam, "route": group + ":" + " ".join(pattern), "base": base,
+             "chain": _defective_chain(rng, pattern, k, fam), "tier": tier}
+        r = rng.random()
+        if r < 0.3:
+            c["order"] = "rev"
+        if rng.random() < 0.3:
+            c["reread"] = True
+        if rng.random() < 0.2:
+            c["decoy"] = True
+        if rng.random() < 0.3:
+            c["recheck"] = True
+        cases.append(c)
+
+    # (a) every pattern at least once, the families dealt round-robin over them (offset by the seed's shuffle)
+    j = 0
+    for group, pats in DEFECTIVE_PATTERNS.items():
+        for pattern in pats:
+            for _ in range(len(fams)):
+                fam, k = fams[j % len(fams)]
+                j += 1
+                if _defective_ok(pattern, fam, k):
+                    make(fam, k, group, pattern)
+                    break
+    # (b) every family on the negative-power routes and on two more groups of routes
+    for fam, k in fams:
+        others = [g for g in DEFECTIVE_PATTERNS if g != "neg"]
+        rng.shuffle(others)
+        for group in ["neg"] + others[:2]:
+            pats = DEFECTIVE_PATTERNS[group]
+            ok = [p for p in pats if _defective_ok(p, fam, k)]
+            if ok:
+                make(fam, k, group, rng.choice(ok))
+    # (c) the matrices that have no inverse on further negative-power routes
+    sing = [(f, k) for f, k in fams if f in NO_INVERSE and f != "diag-singular"]
+    for _ in range(n_extra):
+        fam, k = rng.choice(sing)
+        ok = [p for p in DEFECTIVE_PATTERNS["neg"] if _defective_ok(p, fam, k)]
+        make(fam, k, "neg", rng.choice(ok))
+    # (d) every run: the matrices that may have NO q-th root (nilpotent, singular and not diagonalisable) on a root route, and the
+    # nilpotent / Jordan-type ones (finite exponential series, lam + N) on an exp route, 2x2 and 4x4
+    for fam, k in fams:
+        for group, wanted in (("root", ("nilpotent", "kron-singular", "singular-nonnormal")), ("exp", ("nilpotent", "jordan"))):
+            if fam in wanted:
+                ok = [p for p in DEFECTIVE_PATTERNS[group] if _defective_ok(p, fam, k)]
+                make(fam, k, group, rng.choice(ok))
+    return cases
+
+
 def corpus():
     return _register(_corpus())
 
@@ -2504,6 +2817,17 @@ def _corpus():
          "chain": [["power", 2, "nu8"], ["dagger"], ["replace", [{"ty": "F", "r": "3/4"}]], ["controlled", 2, "sI"]]},
         {"kind": "numtype", "route": "corpus", "base": dict(cg, params=[{"v": ["1/2", 0], "ty": "F"}]),
          "chain": [["power", -1, "sF"], ["controlled", 1, "n8"], ["replace", [{"v": ["-3/2", "1/4"], "ty": "c"}]], ["dagger"]]},
+        # --- custom gates that are not unitary: no inverse (rank one; must be refused on every route that ends in a negative
+        # power), nilpotent (exp is the finite series 1 + N + N^2/2), defective but invertible (Jordan block: true inverse power)
+        {"kind": "defective", "family": "rank-one", "route": "corpus", "base": {"custom": "corpus_projplus", "rows": [[["1/2", 0], ["1/2", 0]], [["1/2", 0], ["1/2", 0]]],
+                                                                                  "nsyms": 0, "params": []},
+         "chain": [["power", -1, "f"], ["controlled", 1], ["dagger"]], "order": "rev"},
+        {"kind": "defective", "family": "nilpotent", "route": "corpus",
+         "base": {"custom": "corpus_nil4", "rows": [[[0, 0], [1, 0], [0, 0], [0, 0]], [[0, 0], [0, 0], [2, 0], [0, 0]],
+                                                    [[0, 0], [0, 0], [0, 0], [0, 1]], [[0, 0], [0, 0], [0, 0], [0, 0]]], "nsyms": 0, "params": []},
+         "chain": [["exp"], ["dagger"], ["power", -2]]},
+        {"kind": "defective", "family": "jordan", "route": "corpus", "base": {"custom": "corpus_jordan", "rows": [[[2, 0], [1, 0]], [[0, 0], [2, 0]]], "nsyms": 0, "params": []},
+         "chain": [["controlled", 1], ["power", -2], ["dagger"], ["power", 0]], "reread": True},
         {"kind": "malformed", "base": x, "chain": [["controlled", 0]]},
         {"kind": "malformed", "base": x, "chain": [["controlled", 2], ["controlled", -1], ["dagger"]]},
         {"kind": "malformed", "base": rx, "chain": [["dagger"], ["replace", []], ["controlled", 1]]},
@@ -2571,6 +2895,8 @@ def _generate(rng, tier):
             c["base"], c["chain"] = r["base"], r["chain"]
     # ... and a stream that holds every (route of the modifier API, type) cell once
     cases.extend(_numtype_cases(rng, tier, full=big))
+    # custom gates with singular / nilpotent / defective / non-normal matrices on every modifier route
+    cases.extend(_defective_cases(rng, tier, 60 if big else 6))
     # malformed stream
     for _ in range(120 if big else 24):
         base = _random_base(rng, 2)
@@ -2597,7 +2923,7 @@ def _generate(rng, tier):
 def nontrivial(case):
     if is_session(case):
         return len(case["runs"]) >= 3 and all(len(r["chain"]) >= 1 for r in case["runs"])
-    return case["kind"] in ("chain", "special", "exotic", "syntax", "numtype") and len(case["chain"]) >= 2
+    return case["kind"] in ("chain", "special", "exotic", "syntax", "numtype", "defective") and len(case["chain"]) >= 2
 
 
 _TAG_NAME = {"i": "int", "b": "bool", "f": "float", "F": "fractions.Fraction", "sI": "sympy.Integer", "sR": "sympy.Rational",
@@ -2628,6 +2954,33 @@ def distribution(cases, outs):
     def bump(d, k):
         d[k] = d.get(k, 0) + 1
 
+    nu_fam, nu_route, nu_neg = {}, {}, {}
+    for c, o in zip(cases, outs):
+        if c.get("kind") != "defective":
+            continue
+        bump(nu_fam, f"{c.get('family')} {len(c['base']['rows'])}x{len(c['base']['rows'])}")
+        bump(nu_route, c.get("route", "?").split(":")[0])
+        if c.get("family") in NO_INVERSE and isinstance(o, dict):
+            # what the library did with the negative powers of a matrix that has no inverse (and with the gates built on them)
+            import numpy as np
+            undefined = False
+            sts = o.get("steps", [])
+            for j, (m, st) in enumerate(zip(c["chain"], sts[1:])):
+                neg = m[0] == "power" and unrat(m[1]).denominator == 1 and unrat(m[1]) < 0
+                if neg and not undefined:  # counted only where the ARGUMENT of the negative power has no inverse
+                    pm = sts[j].get("m") if isinstance(sts[j], dict) else None
+                    if not _is_mat(pm) or not np.all(np.isfinite(_np(pm))):
+                        continue
+                    sv = np.linalg.svd(_np(pm), compute_uv=False)
+                    if sv[-1] > 1e-12 * max(1.0, sv[0]):
+                        continue
+                elif undefined and not (m[0] in ("dagger", "controlled") or (m[0] == "power" and unrat(m[1]).denominator == 1 and unrat(m[1]) != 0)):
+                    break
+                if neg or undefined:
+                    mm = st.get("m") if isinstance(st, dict) else None
+                    bump(nu_neg, "refused (NonInvertibleMatrixError)" if isinstance(mm, dict) and mm.get("err") == "err:noninv"
+                         else "returned a matrix" if isinstance(mm, list) else "other (external failure / timeout)")
+                    undefined = True
     for c in cases:
         if c.get("kind") == "numtype":
             bump(routes, c.get("route", "?"))
@@ -2677,6 +3030,8 @@ def distribution(cases, outs):
                     rereads += 1
     return {"exponent_number_types": exp_types, "control_count_number_types": ctl_types, "parameter_number_types": par_types,
             "typed_exponent_positions": nest, "numtype_routes": routes,
+            "nonunitary_custom_families": nu_fam, "nonunitary_custom_route_groups": nu_route,
+            "negative_power_of_matrix_without_inverse_and_gates_above": nu_neg,
             "modifier_kinds": kinds, "chain_depth": depth, "matrices_by_num_qubits": nqh, "matrices_evaluated": mats,
             "runs_total": runs_total, "session_run_order": orders, "session_object_sharing": shares,
             "matrices_read_twice_after_editing_first_answer": rereads, "oracle_only_cases_value_outside_Q_zeta8": _ORACLE_ONLY[0], "matrix_property_calls": _EVALS[0],
